@@ -89,7 +89,9 @@ func (channel *Channel) basicCancel(method *amqp.BasicCancel) (err *amqp.Error) 
 		return amqp.NewChannelError(amqp.NotFound, "Consumer not found", method.ClassIdentifier(), method.MethodIdentifier())
 	}
 	channel.removeConsumer(method.ConsumerTag)
-	channel.SendMethod(&amqp.BasicCancelOk{ConsumerTag: method.ConsumerTag})
+	if !method.NoWait {
+		channel.SendMethod(&amqp.BasicCancelOk{ConsumerTag: method.ConsumerTag})
+	}
 	return nil
 }
 
